@@ -1,9 +1,34 @@
 import Okane.Drv.IOUtil
-/-! Driver commands for C13 (stub: replaced when the property's streams are built). -/
+import Okane.Model.InlineDisplay
+/-!
+Driver for C13: the printed form of a multi-commodity amount (`Okane.Amount.inlineDisplay`, the model of the
+repaired `InlinePrintAmount`) run on the decimal text okane printed.
+
+Case line: `<enc commodity>=<enc value text> ...` — the entries of one amount in an arbitrary (shuffled) order;
+`-` alone for the empty amount.  Output: `<enc text>` = what okane must have printed for that amount, whatever
+order its hash map was in.
+-/
 namespace Okane.Drv.C13
+open Okane
+
+def parseEntry (w : String) : Option (String × String) :=
+  match w.splitOn "=" with
+  | [c, v] =>
+    match Sexp.decode c, Sexp.decode v with
+    | some c, some v => some (c, v)
+    | _, _ => none
+  | _ => none
+
+def step (line : String) : String :=
+  let ws := words line
+  if ws == ["-"] then Sexp.encode (Amount.inlineDisplay (fun a b : String => decide (a ≤ b)) (fun c v => v ++ " " ++ c) ([] : List (String × String)))
+  else
+    match ws.mapM parseEntry with
+    | some es => Sexp.encode (Amount.inlineDisplay (fun a b : String => decide (a ≤ b)) (fun c v => v ++ " " ++ c) es)
+    | none => "bad-case"
 
 def main (args : List String) : IO Unit := do
   let _ := args
-  pure ()
+  forEachLine step
 
 end Okane.Drv.C13
